@@ -546,55 +546,25 @@ theorem ovVal_empty_right (x : Location) (ms fs : Bool) : ovVal x .empty ms fs =
   obtain ⟨_, p, _, h2⟩ := ovVal_true h
   simp [covX_empty] at h2
 
-/-- closed form of the parent-less `intersection`, outside the F-C02c corner -/
-theorem intersection_spec (x y : Location) (hx : WF x) (hy : WF y) (ms fs : Bool)
-    (hq : ¬ (x ≠ .empty ∧ y = .empty ∧ ms = true)) :
+/-- closed form of the parent-less `intersection` (no corner left since the repair of F-C02c) -/
+theorem intersection_spec (x y : Location) (hx : WF x) (hy : WF y) (ms fs : Bool) :
     ∃ r, intersection x y ms fs = .ok r ∧ ISpec x y ms fs r := by
-  match x, y, hx, hy, hq with
-  | .empty, y, _, _, _ =>
+  match x, y, hx, hy with
+  | .empty, y, _, _ =>
     exact ⟨.empty, by cases y <;> rfl, ISpec.ofEmpty (by intro p; simp [covX_empty])⟩
-  | .single a sa, .single b sb, _, _, _ => exact isectSS_spec a sa b sb ms fs
-  | .single a sa, .compound lb, hx, hy, _ => exact isectSC_spec a sa lb ms fs hx hy
-  | .compound la, .single b sb, hx, hy, _ => exact isectCS_spec la b sb ms fs hx hy
-  | .compound la, .compound lb, hx, hy, _ => exact isectCC_spec la lb ms fs hx hy
-  | .single a sa, .empty, hx, hy, hq =>
-    refine ⟨.empty, ?_, ISpec.ofEmpty (ovVal_false (ovVal_empty_right _ ms fs))⟩
-    unfold intersection
-    rw [hasOverlap_spec _ _ hx hy ms fs hq]
-    simp only [bind, Except.bind]
-    change (if (!ovVal (.single a sa) .empty ms fs) = true then _ else _) = _
-    rw [ovVal_empty_right]
-    rfl
-  | .compound la, .empty, hx, hy, hq =>
-    refine ⟨.empty, ?_, ISpec.ofEmpty (ovVal_false (ovVal_empty_right _ ms fs))⟩
-    unfold intersection
-    rw [hasOverlap_spec _ _ hx hy ms fs hq]
-    simp only [bind, Except.bind]
-    change (if (!ovVal (.compound la) .empty ms fs) = true then _ else _) = _
-    rw [ovVal_empty_right]
-    rfl
+  | .single a sa, .single b sb, _, _ => exact isectSS_spec a sa b sb ms fs
+  | .single a sa, .compound lb, hx, hy => exact isectSC_spec a sa lb ms fs hx hy
+  | .compound la, .single b sb, hx, hy => exact isectCS_spec la b sb ms fs hx hy
+  | .compound la, .compound lb, hx, hy => exact isectCC_spec la lb ms fs hx hy
+  | .single a sa, .empty, _, _ =>
+    exact ⟨.empty, rfl, ISpec.ofEmpty (ovVal_false (ovVal_empty_right _ ms fs))⟩
+  | .compound la, .empty, _, _ =>
+    exact ⟨.empty, rfl, ISpec.ofEmpty (ovVal_false (ovVal_empty_right _ ms fs))⟩
 
-/-- with an `EmptyLocation` argument the call raises or returns `EmptyLocation` -/
+/-- with an `EmptyLocation` argument the call returns `EmptyLocation` -/
 theorem intersection_empty_arg (x : Location) (ms fs : Bool) (r : Location)
     (h : intersection x .empty ms fs = .ok r) : r = .empty := by
-  cases x with
-  | empty => simp only [intersection, pure, Except.pure] at h; cases h; rfl
-  | single a sa =>
-    simp only [intersection, bind, Except.bind] at h
-    cases hv : hasOverlap (.single a sa) .empty ms fs with
-    | error e => rw [hv] at h; cases h
-    | ok v =>
-      rw [hv] at h
-      cases v <;> simp [pure, Except.pure, throw, throwThe, MonadExceptOf.throw] at h
-      exact h.symm
-  | compound la =>
-    simp only [intersection, bind, Except.bind] at h
-    cases hv : hasOverlap (.compound la) .empty ms fs with
-    | error e => rw [hv] at h; cases h
-    | ok v =>
-      rw [hv] at h
-      cases v <;> simp [pure, Except.pure, throw, throwThe, MonadExceptOf.throw] at h
-      exact h.symm
+  cases x <;> (simp only [intersection, pure, Except.pure] at h; cases h; rfl)
 
 /-! ### with parents -/
 
@@ -636,7 +606,7 @@ theorem okI_empty (a b : LocP) (ms fs strict : Bool) (h : (strict && !sameParent
   · rfl
 
 theorem intersectionP_ok_aux (a b : PLoc) (ha : WFP a) (hb : WFP b) (ms fs strict : Bool)
-    (hq : ¬ EmptyArgQuirk a b ms) (h : (strict && !sameParent a.2 b.2) = false) :
+    (h : (strict && !sameParent a.2 b.2) = false) :
     okIntersection a b ms fs strict (ans (intersectionP a b ms fs false)) = true := by
   rw [intersectionP_false_eq]
   by_cases he : a.1 = .empty
@@ -650,14 +620,7 @@ theorem intersectionP_ok_aux (a b : PLoc) (ha : WFP a) (hb : WFP b) (ms fs stric
       intro p; rw [active_eq, hsp]; rfl
     | true =>
       simp only [he, Bool.true_eq_false, or_self, if_false]
-      have hq' : ¬ (a.1 ≠ .empty ∧ b.1 = .empty ∧ ms = true) := by
-        rintro ⟨h1, h2, h3⟩
-        apply hq
-        refine ⟨h1, h2, h3, ?_⟩
-        have hb2 := hb.2.1 h2
-        rw [hb2, sameParent_nil_right] at hsp
-        simpa using hsp
-      obtain ⟨r, hr, hs⟩ := intersection_spec a.1 b.1 ha.1 hb.1 ms fs hq'
+      obtain ⟨r, hr, hs⟩ := intersection_spec a.1 b.1 ha.1 hb.1 ms fs
       rw [hr]
       simp only [bind, Except.bind, pure, Except.pure, ans_ok]
       have hends := hs.ends_le
@@ -703,10 +666,10 @@ open BioCantor BioCantor.Spec BioCantor.Model
 /-- C02-T2: intersection covers exactly the common positions (full spans with `full_span`), is on the receiver's
     strand, well formed, inside the parent, without empty blocks; incompatible parents / strands under
     match_strand give EmptyLocation -/
-theorem intersectionP_ok (a b : PLoc) (ha : WFP a) (hb : WFP b) (ms fs strict : Bool) (hq : ¬ EmptyArgQuirk a b ms) :
+theorem intersectionP_ok (a b : PLoc) (ha : WFP a) (hb : WFP b) (ms fs strict : Bool) :
     okIntersection a b ms fs strict (ans (intersectionP a b ms fs strict)) = true := by
   cases strict with
-  | false => exact Isect.intersectionP_ok_aux a b ha hb ms fs false hq rfl
+  | false => exact Isect.intersectionP_ok_aux a b ha hb ms fs false rfl
   | true =>
     cases hsp : sameParent a.2 b.2 with
     | false =>
@@ -714,7 +677,7 @@ theorem intersectionP_ok (a b : PLoc) (ha : WFP a) (hb : WFP b) (ms fs strict : 
       rfl
     | true =>
       rw [Isect.intersectionP_strict_eq a b ms fs hsp]
-      exact Isect.intersectionP_ok_aux a b ha hb ms fs true hq (by simp [hsp])
+      exact Isect.intersectionP_ok_aux a b ha hb ms fs true (by simp [hsp])
 
 /-- C02-T2 (normal form): for operands that are not self-overlapping, and for the span variant, the result is in
     normal form -/
@@ -736,7 +699,7 @@ theorem intersectionP_normal (a b : PLoc) (ha : WFP a) (hb : WFP b) (ms fs stric
           · rw [hbe] at hr
             rw [Isect.intersection_empty_arg a.1 ms fs r hr]
             rfl
-          · obtain ⟨r', hr', hs⟩ := Isect.intersection_spec a.1 b.1 ha.1 hb.1 ms fs (fun h => hbe h.2.1)
+          · obtain ⟨r', hr', hs⟩ := Isect.intersection_spec a.1 b.1 ha.1 hb.1 ms fs
             rw [hr] at hr'
             cases hr'
             refine (hs.normal ?_).1
@@ -759,11 +722,11 @@ theorem intersectionP_normal (a b : PLoc) (ha : WFP a) (hb : WFP b) (ms fs stric
 example :
     let a : PLoc := (.compound ⟨[(0, 2), (2, 2), (3, 5)], .minus⟩, [(some "chrA", none, some ['A','C','G','T','A'])])
     let b : PLoc := (.compound ⟨[(1, 4), (4, 5)], .plus⟩, [(some "chrA", none, some ['A','C','G','T','A'])])
-    WFP a ∧ WFP b ∧ ¬ EmptyArgQuirk a b true := by decide
+    WFP a ∧ WFP b := by decide
 
 example :
     let a : PLoc := (.single (1, 4) .plus, [])
     let b : PLoc := (.empty, [])
-    WFP a ∧ WFP b ∧ ¬ EmptyArgQuirk a b false := by decide
+    WFP a ∧ WFP b := by decide
 
 end BioCantor.Proofs
